@@ -389,6 +389,12 @@ impl<'tcx> Cx<'tcx> {
                 let _ = write!(s, "\"decl\":{}", esc(&self.path(*did)));
                 let ga: Vec<String> = args.iter().map(|a| esc(&format!("{}", a))).collect();
                 let _ = write!(s, ",\"gargs\":[{}]", ga.join(","));
+                if self.path(*did).ends_with("Arg::value_parser") {
+                    if let Some(pt) = args.iter().filter_map(|a| a.as_type()).next() {
+                        let v = self.clap_value_ty(owner, pt);
+                        let _ = write!(s, ",\"clap_parser\":{},\"clap_value\":{}", esc(&self.ty_str(pt)), opt_str(v));
+                    }
+                }
                 // trait method?
                 if let Some(tr) = self.tcx.trait_of_assoc(*did) {
                     let _ = write!(s, ",\"trait\":{}", esc(&self.path(tr)));
